@@ -238,6 +238,97 @@ def template_programs():
     return out
 
 
+
+def direct_histories(only=None):
+    """histories written directly against the implementation (they need statements the program IR does not have):
+    a tensor / ndarray `y` shared by two graphs L1, L2; L1 is back-propagated or cleared; then an attempt to change `y`'s
+    values — an in-place ufunc with `out=y` *and* an explicit `constant=`, a raw write into the array, an in-place
+    update inside no_autodiff (the last three must be refused while L2 is alive: the array is locked) — optionally a
+    re-use of `y`; then L2.backward() must raise InvalidBackprop or leave w.grad = the forward-time value of y.
+    -> [(name, class, message)]"""
+    import gc
+    import itertools
+
+    from mygrad.errors import InvalidBackprop
+
+    out = []
+    for shared, boundary, mut, reuse in itertools.product(("intermediate", "leaf", "ndarray", "constant-tensor"), ("back", "clear"),
+            ("out-constant-true", "out-constant-false", "raw-data-write", "noautodiff-imul", "noautodiff-setitem", "none"),
+            (False, True)):
+        name = f"{shared}|{boundary}|{mut}|{'reuse' if reuse else 'no-reuse'}"
+        if only is not None and name != only:
+            continue
+        if shared in ("ndarray", "constant-tensor") and mut.startswith("out-constant") and shared == "ndarray":
+            continue
+        gc.collect()
+        x = mg.tensor([2.0, 3.0, -1.5])
+        w = mg.tensor([1.0, 2.0, 3.0])
+        if shared == "intermediate":
+            y = x * 3.0
+        elif shared == "leaf":
+            y = x
+        elif shared == "ndarray":
+            y = np.array([2.0, 3.0, -1.5])
+        else:
+            y = mg.tensor([2.0, 3.0, -1.5], constant=True)
+        y0 = np.array(y if isinstance(y, np.ndarray) else y.data)
+        L1 = (y * 2.0 * x).sum()
+        L2 = (w * y).sum()
+        if boundary == "back":
+            L1.backward()
+        else:
+            L1.clear_graph()
+        mut_exc = None
+        try:
+            if mut == "out-constant-true":
+                mg.multiply(y, 10.0, out=y, constant=True)
+            elif mut == "out-constant-false":
+                mg.multiply(y, 10.0, out=y, constant=False)
+            elif mut == "raw-data-write":
+                (y if isinstance(y, np.ndarray) else y.data)[...] = 7.0
+            elif mut == "noautodiff-imul":
+                with mg.no_autodiff:
+                    if isinstance(y, np.ndarray):
+                        y *= 10.0
+                    else:
+                        y *= 10.0
+            elif mut == "noautodiff-setitem":
+                with mg.no_autodiff:
+                    y[...] = 7.0
+        except Exception as e:
+            mut_exc = type(e).__name__
+        if reuse:
+            try:
+                _r = y + 1.0
+            except Exception:
+                pass
+        try:
+            L2.backward()
+        except InvalidBackprop:
+            continue
+        except Exception as e:
+            out.append((name, "raises-other", f"L2.backward() raised {type(e).__name__}: {str(e)[:80]} (mutation attempt: {mut_exc or 'succeeded'})"))
+            continue
+        g = w.grad
+        if g is None or not np.array_equal(g, y0):
+            out.append((name, "stale-values-used", f"L2 = sum(w*y) was recorded with y = {y0.tolist()}; after {mut} (attempt {mut_exc or 'succeeded'}) "
+                        f"L2.backward() returned silently with w.grad = {None if g is None else g.tolist()}"))
+    return out
+
+
+
+def direct_sig(name, cls):
+    """family signature of a failing direct history: a tracked in-place update of the shared tensor followed by a re-use
+    is the recorded after-clear:M,U family; a tracked in-place update of a shared *constant* tensor the const-input one"""
+    shared, boundary, mut, reuse = name.split("|")
+    if cls == "stale-values-used" and mut.startswith("out-constant"):
+        if shared == "constant-tensor":
+            return "C09|stale-values-used:const-input|after-clear:M"
+        if reuse == "reuse":
+            return "C09|stale-values-used|after-clear:M,U"
+    return f"C09|{cls}|direct:{name}"
+
+
 def run(ctx: Ctx) -> Outcome:
     n = ctx.n(2000, 10000)
     out, results = engcheck.run_programs(ctx, n, dict(GEN, n_stmts=ctx.n(11, 20)), "oracle", nontrivial)
@@ -251,6 +342,16 @@ def run(ctx: Ctx) -> Outcome:
     out.evaluations += len(tres)
     out.stats["template_histories"] = len(tres)
     engcheck.report(out, tres, "C09", oracle, sigfn=sigfn, per_class=10 ** 6)
+    seen_d = {v.signature for v in out.violations}
+    dh = direct_histories()
+    out.evaluations += 4 * 2 * 6 * 2
+    out.stats["direct_histories_failing"] = len(dh)
+    for name, cls, m in dh:
+        sg = direct_sig(name, cls)
+        if sg in seen_d:
+            continue
+        seen_d.add(sg)
+        out.violations.append(Violation(sg, f"{name}: {m}", {"kind": "direct", "name": name, "class": cls}))
     msg = f6_witness()
     if msg:
         out.violations.append(Violation(sigfn("C09", "stale-values-used", WITNESS), msg, {"kind": "program", "program": WITNESS, "class": "stale-values-used"}))
@@ -265,6 +366,10 @@ def check_witness(w):
 
 
 def replay(data) -> bool:
+    if data["replay"].get("kind") == "direct":
+        res = direct_histories(only=data["replay"]["name"])
+        print(res)
+        return bool(res)
     p = data["replay"]["program"]
     for st in p:
         print(progs.to_line(st))
